@@ -46,7 +46,7 @@ static Built build(int kind, unsigned n, unsigned nb, unsigned it, int var, cons
         B.m = std::make_shared<RFKickMap>(B.in, B.out, (float)revpart, (float)VRF, (float)frf, (float)V0, itt, false, nullptr); break; }
     case DRIFT: {
         std::vector<float> slip = {angle, var == 1 ? 0.3f * angle : 0.f, var == 2 ? -0.2f * angle : 0.f};
-        B.m = std::make_shared<DriftMap>(B.in, B.out, slip, 1.3e9f, itt, false, nullptr); break; }
+        B.m = with_scratch(slip, [&](const std::vector<float>& sl) { return std::make_shared<DriftMap>(B.in, B.out, sl, 1.3e9f, itt, false, nullptr); }); break; }
     case FP3: case FP4:
         B.m = std::make_shared<FokkerPlanckMap>(B.in, B.out, n, n, (FokkerPlanckMap::FPType)FPT, FokkerPlanckMap::FPTracking::none,
                                                 var == 2 ? 1e-2 : 1e-3, kind == FP3 ? FokkerPlanckMap::DerivationType::two_sided : FokkerPlanckMap::DerivationType::cubic, nullptr);
